@@ -18,10 +18,12 @@ package gomatrixserverlib
 import (
 	"encoding/json"
 	"fmt"
+	"reflect"
 	"strings"
 	"unicode/utf8"
 
 	"github.com/matrix-org/gomatrixserverlib/spec"
+	"github.com/tidwall/gjson"
 )
 
 // Event validation errors
@@ -122,7 +124,48 @@ func checkUntrustedEventJSON(eventJSON []byte) error {
 	if name, found := duplicateJSONKey(eventJSON); found {
 		return BadJSONError{fmt.Errorf("gomatrixserverlib: duplicate key %q in event JSON", name)}
 	}
+	// A top-level member whose name is a case variant of a field of the event structs ("Type",
+	// "Room_id", "SENDER", ...): encoding/json matches field names case-insensitively, so the
+	// struct decoding reads it as the field (the last match wins), while it is another member
+	// of the JSON that is hashed, signed, redacted and stored. Type(), SenderID(), RoomID(), ...
+	// would report a value that is not the event's, the length limits would be checked on it,
+	// and it would be gone after redaction or a reload. No honest server sends such members.
+	var variant string
+	gjson.ParseBytes(eventJSON).ForEach(func(key, _ gjson.Result) bool {
+		for _, name := range eventJSONFieldNames {
+			if key.Str != name && strings.EqualFold(key.Str, name) {
+				variant = key.Str
+				return false
+			}
+		}
+		return true
+	})
+	if variant != "" {
+		return BadJSONError{fmt.Errorf("gomatrixserverlib: key %q in event JSON is a case variant of an event field", variant)}
+	}
 	return nil
+}
+
+// eventJSONFieldNames are the JSON names of the fields that decoding event JSON fills in.
+var eventJSONFieldNames = jsonFieldNames(reflect.TypeOf(eventV2{}))
+
+// jsonFieldNames lists the names encoding/json uses for the fields of a struct type.
+func jsonFieldNames(t reflect.Type) []string {
+	var names []string
+	for i := 0; i < t.NumField(); i++ {
+		field := t.Field(i)
+		tag, _, _ := strings.Cut(field.Tag.Get("json"), ",")
+		switch {
+		case field.Anonymous && tag == "" && field.Type.Kind() == reflect.Struct:
+			names = append(names, jsonFieldNames(field.Type)...)
+		case !field.IsExported() || tag == "-":
+		case tag != "":
+			names = append(names, tag)
+		default:
+			names = append(names, field.Name)
+		}
+	}
+	return names
 }
 
 // encoding/json refuses documents nested deeper than this.
